@@ -50,6 +50,7 @@ type VC struct {
 	inputs   []string // names of input constants (for models)
 	sreg     *sortReg
 	funRet   map[string]string
+	tagIDs   map[string]int
 }
 
 func newVC(bv bool) *VC {
